@@ -636,7 +636,8 @@ def opcode_probe(payload):
 def desc_probe(payload):
     """C02: definitions with parameters of every rate and array defaults; returns what the bytes
     and the library's own reader say about the controls."""
-    _init(payload.get('mode', 'nrt'))
+    if not payload.get('noinit'):
+        _init(payload.get('mode', 'nrt'))
     import io
     from sc3.synth import ugen as ugn
     from sc3.base import main as _libsc3
@@ -785,6 +786,8 @@ def class_witness(payload):
 
 
 def class_sweep(payload):
+    # (with payload['digest'] every row also carries a digest of the bytes: C20 compares them across
+    # hash seeds and modes)
     """C02 for every unit class of the library that can be constructed without arguments (or with
     a local buffer / an FFT chain as only argument): the definition containing one such unit is
     either rejected with an exception or its bytes parse strictly, are well-formed, contain the
@@ -865,7 +868,7 @@ def class_sweep(payload):
                         pos = [i for i, c in enumerate(kids) if c is o]
                         if pos and pos[0] < len(d['ugens']) and d['ugens'][pos[0]]['cls'] == name:
                             rates.append(d['ugens'][pos[0]]['rate'])
-                res.append([name, ctor, argkind, status, want, rates])
+                res.append([name, ctor, argkind, status, want, rates] + ([hashlib.sha1(raw).hexdigest()[:12]] if payload.get('digest') else []))
     return res
 
 
